@@ -102,6 +102,7 @@ type interpreter struct {
 	curG      *goroutine
 	harnessState map[string]value
 	program   *Program
+	initStarted map[*ssa.Function]bool
 	locks     map[*value]*lockState
 	onces     map[*value]int
 	wgs       map[*value]int
